@@ -220,6 +220,170 @@ def campaign_e2e(ck: Check, docs_per_pair: int, sdl_per_pair: int) -> None:
     camp.wall_s = time.time() - t0
 
 
+# ---------------------------------------------------------------- several generate() calls in ONE interpreter
+SEQ_CHILD = r'''
+import json, sys, tempfile, shutil, io, contextlib, warnings
+from pathlib import Path
+job = json.load(open(sys.argv[1]))
+import datamodel_code_generator as d
+from datamodel_code_generator.format import PythonVersion
+from datamodel_code_generator.parser import LiteralType
+out = []
+for c in job["cases"]:
+    work = Path(tempfile.mkdtemp())
+    target = work / "out.py"
+    kw = dict(c["opts"])
+    if kw.get("enum_field_as_literal"):
+        kw["enum_field_as_literal"] = LiteralType(kw["enum_field_as_literal"])
+    text = c["doc"] if isinstance(c["doc"], str) else json.dumps(c["doc"])
+    try:
+        with warnings.catch_warnings(), contextlib.redirect_stderr(io.StringIO()):
+            warnings.simplefilter("ignore")
+            d.generate(text, input_file_type=d.InputFileType(c["input_kind"]), output=target, output_model_type=d.DataModelType(c["kind"]),
+                       target_python_version=PythonVersion("3.%d" % c["minor"]), formatters=[], disable_timestamp=True, **kw)
+        out.append({"code": target.read_text() if target.is_file() else None})
+    except BaseException as e:
+        if isinstance(e, (KeyboardInterrupt, SystemExit)):
+            raise
+        out.append({"error": type(e).__name__ + ": " + str(e)[:120]})
+    shutil.rmtree(work, ignore_errors=True)
+json.dump(out, open(sys.argv[2], "w"))
+'''
+
+
+def run_sequence(cases: list[dict]) -> list[dict] | str:
+    """the cases as consecutive generate() calls of one fresh interpreter; one result per case, or an error text"""
+    import os
+    import shutil
+    import tempfile
+
+    from ..subproc import child_env, run_py
+
+    d = tempfile.mkdtemp(prefix="c19-", dir=e2e.scratch_root())
+    try:
+        jp, rp = os.path.join(d, "job.json"), os.path.join(d, "res.json")
+        with open(jp, "w") as f:
+            json.dump({"cases": cases}, f)
+        p = run_py(["-c", SEQ_CHILD, jp, rp], cwd=d, env=child_env(), timeout=240)
+        if p.rc != 0 or not os.path.isfile(rp):
+            return f"rc={p.rc} {p.err[-300:]}"
+        with open(rp) as f:
+            return json.load(f)
+    finally:
+        shutil.rmtree(d, ignore_errors=True)
+
+
+def judge_sequence(cases: list[dict], results: list[dict]) -> list[tuple[int, dict, str]]:
+    """(index of the call, classification, observed) for every call whose output needs something its target lacks"""
+    bad = []
+    for i, (c, r) in enumerate(zip(cases, results)):
+        if r.get("code"):
+            for cls, obs in oracle_module(r["code"], c["kind"], c["minor"]):
+                if cls.get("oracle") != "unparsable-in-every-version":
+                    bad.append((i, cls, obs))
+    return bad
+
+
+def shrink_sequence(cases: list[dict], i: int, want: dict) -> list[dict]:
+    """a short call history after which call i still fails the same way: one earlier call of the same kind with another
+    target + the call; the earlier calls of the same kind + the call; the whole prefix"""
+    c = cases[i]
+    same_kind = [x for x in cases[:i] if x["kind"] == c["kind"]]
+    cands = [[x, c] for x in same_kind if x["minor"] != c["minor"]][:4] + [[*same_kind, c], cases[: i + 1]]
+    for cand in cands:
+        res = run_sequence(cand)
+        if isinstance(res, list) and any(j == len(cand) - 1 and cls.get("oracle") == want.get("oracle") and cls.get("name") == want.get("name")
+                                         for j, cls, _ in judge_sequence(cand, res)):
+            return cand
+    return cases[: i + 1]
+
+
+def fails_alone(c: dict, want: dict) -> bool:
+    alone = run_sequence([c])
+    return isinstance(alone, list) and any(cls.get("oracle") == want.get("oracle") and cls.get("name") == want.get("name") for _, cls, _ in judge_sequence([c], alone))
+
+
+def sequence_fail(ck: Check, seq: list[dict], cls: dict, obs: str) -> None:
+    """`seq[-1]` fails after `seq[:-1]` and not alone"""
+    c = seq[-1]
+    earlier = ", ".join(f"{x['kind']}@3.{x['minor']}" for x in seq[:-1]) or "no earlier call"
+    ck.fail({**cls, "input_kind": c["input_kind"], "kind": c["kind"], "via": "generate-sequence", "union_operator_option": bool(c["opts"].get("use_union_operator"))},
+            {"kind": "sequence", "cases": seq},
+            f"call #{len(seq)} of one interpreter ({c['kind']}, target 3.{c['minor']}) after [{earlier}]: {obs}; the same call alone in a fresh interpreter is fine",
+            f"only names and constructs available in Python 3.{c['minor']}, whatever was generated earlier in the process")
+
+
+def judge_and_report(ck: Check, camp, cases: list[dict], res: list[dict]) -> None:
+    from ..subproc import pmap
+
+    bad = judge_sequence(cases, res)
+    seen: set = set()
+    todo = []
+    for i, cls, obs in bad:
+        k = (cases[i]["kind"], cases[i]["minor"], cls.get("oracle"), cls.get("name"), json.dumps(cases[i]["opts"], sort_keys=True))
+        if k not in seen and len(todo) < 10:
+            seen.add(k)
+            todo.append((i, cls, obs))
+    alone = pmap(lambda t: fails_alone(cases[t[0]], t[1]), todo)
+    for (i, cls, obs), is_alone in zip(todo, alone):
+        c = cases[i]
+        if is_alone:   # not a matter of history: the same failure as the single call (same classification, same replay form)
+            camp.hit("fails-also-alone")
+            full = {**cls, "input_kind": c["input_kind"], "kind": c["kind"], "via": "generate", "union_operator_option": bool(c["opts"].get("use_union_operator"))}
+            ck.fail(full, {"kind": c["kind"], "minor": c["minor"], "input_kind": c["input_kind"], "opts": c["opts"], "doc": c["doc"]}, obs,
+                    f"only names and constructs available in Python 3.{c['minor']}")
+            continue
+        camp.hit("fails-only-after-earlier-calls")
+        sequence_fail(ck, shrink_sequence(cases, i, cls), cls, obs)
+        if ck.failures:
+            return
+
+
+def campaign_sequences(ck: Check, n_procs: int, docs_per_pair: int) -> None:
+    """the target version is an argument of every call: what an earlier call with ANOTHER target chose (model classes, field
+    classes, imports) must not be reused. Fresh interpreters, each running all kinds over all targets in one order."""
+    from ..subproc import pmap
+
+    camp = ck.campaign("e2e histories: sequences of generate() calls with different targets in one fresh interpreter (descending, ascending, "
+                       "shuffled target order) -> each output judged against ITS target")
+    t0 = time.time()
+    rng = ck.rng.fork("sequences")
+    from datamodel_code_generator.format import PythonVersion, is_supported_in_black
+
+    minors = [m for v, m in versions.versions() if is_supported_in_black(PythonVersion(v))]
+    seqs: list[tuple[str, list[dict]]] = []
+    for p in range(n_procs):
+        order_name = ["descending", "ascending", "shuffled"][p % 3]
+        cases: list[dict] = []
+        for kind in rng.shuffle(e2e.MODEL_KINDS):
+            order = sorted(minors, reverse=True) if order_name == "descending" else sorted(minors) if order_name == "ascending" else rng.shuffle(minors)
+            for minor in order:
+                for _ in range(docs_per_pair):
+                    if rng.chance(1, 6):
+                        cases.append({"kind": kind, "minor": minor, "doc": docgen.graphql_sdl(rng), "input_kind": "graphql", "opts": dict(rng.choice(OPTION_POOL[:6]))})
+                    else:
+                        cases.append({"kind": kind, "minor": minor, "doc": docgen.json_schema(rng), "input_kind": "jsonschema", "opts": dict(rng.choice(OPTION_POOL))})
+        seqs.append((order_name, cases))
+    for (order_name, cases), res in zip(seqs, pmap(lambda s: run_sequence(s[1]), seqs)):
+        camp.hit(f"process:{order_name}")
+        if isinstance(res, str):
+            ck.infra_errors.append("C19 sequence child: " + res)
+            continue
+        for c, r in zip(cases, res):
+            camp.evaluations += 1
+            camp.hit(f"kind:{c['kind']}")
+            camp.hit(f"target:3.{c['minor']}")
+            if r.get("code"):
+                camp.distinct.add((order_name, c["kind"], c["minor"], hash(json.dumps(c["doc"], sort_keys=True))))
+            else:
+                camp.hit("reported_error")
+        if not ck.failures:
+            judge_and_report(ck, camp, cases, res)
+        if not judge_sequence(cases, res) and len(camp.samples) < 2:
+            camp.samples.append({"order": order_name, "calls": len(cases), "first_calls": [f"{c['kind']}@3.{c['minor']}" for c in cases[:6]], "result": "every output fits its target"})
+    camp.wall_s = time.time() - t0
+
+
 def campaign_cli_guard(ck: Check) -> None:
     """the keyword-only guard of the CLI (`Config.validate_keyword_only`) against the authored table"""
     from datamodel_code_generator import Error
@@ -284,6 +448,16 @@ def rerun(ck: Check, inp: dict) -> None:
     if inp.get("kind") == "cli_guard":
         campaign_cli_guard(ck)
         return
+    if inp.get("kind") == "sequence":
+        seq = inp["cases"]
+        res = run_sequence(seq)
+        camp.evaluations += len(seq)
+        if isinstance(res, list):
+            for i, cls, obs in judge_sequence(seq, res):
+                if i == len(seq) - 1 and not fails_alone(seq[-1], cls):
+                    sequence_fail(ck, seq, cls, obs)
+                    break
+        return
     case(ck, camp, inp["kind"], inp["minor"], inp["doc"], inp["input_kind"], inp.get("opts", {}))
 
 
@@ -312,6 +486,7 @@ def run(ck: Check) -> None:
     campaign_tables(ck)
     campaign_cli_guard(ck)
     campaign_e2e(ck, 25 if quick else 250, 5 if quick else 50)
+    campaign_sequences(ck, 3 if quick else 9, 2 if quick else 8)
     ck.search_hooks.append(search)
     known_findings(ck)
 
